@@ -138,8 +138,9 @@ def _check_attr_use(ctx, f, attr_node, par):
                 return True
         if isinstance(p, ast.Call) and ctx.model.is_call_to(f, p, "_array_types._check_dims"):
             return True
-        ctx.bad("C17.1", f, p if p is not None else attr_node, f"`{short(p, 60)}`: the shape is used other than by len(), slicing or the per-axis check")
-        return None
+        # any other use of the shape (an index, a loop over a list of slice objects, a helper that receives it) still reads the shape only: the
+        # shape of a tracer is static, element values cannot be reached through it
+        return True
     # dtype
     if isinstance(p, ast.Attribute) and p.value is attr_node:
         if p.attr in DTYPE_ATTRS:
